@@ -54,6 +54,7 @@ def check(ck):
     r10_10(ck)
     r10_11(ck)
     r10_12(ck)
+    r10_13(ck)
 
 
 def _ret_tuples(fi):
@@ -876,3 +877,15 @@ def r10_12(ck):
             v.rule = NEW
     for r in OLD:
         ck.rules.pop(r, None)
+
+
+def r10_13(ck):
+    ck.rule('R10.13', 'the dictionary helpers the bookkeeping is written '
+            'with keep their recursion skeleton: assoc_path, delete_in, '
+            'get_in, dict_to_paths, hierarchy_depth')
+    from . import helpers as H
+    H.assoc_path_shape(ck, 'R10.13')
+    H.delete_in_shape(ck, 'R10.13')
+    H.get_in_shape(ck, 'R10.13')
+    H.dict_to_paths_shape(ck, 'R10.13')
+    H.hierarchy_depth_shape(ck, 'R10.13')
